@@ -540,3 +540,21 @@ pub proof fn lemma_stmt_done(st0: &ParseState<'_, &str>, st: &ParseState<'_, &st
     let f = st0.format; let e = st0.env@;
     assert(lay_ok(f, e, l, st0.head as int));
 }
+
+// ---- the top-level entry for a text that is one term (consume_one / build_mid_result) ----
+/// the cursor is on the text of layout l, which runs to the end of the input; no term has been
+/// read yet, and the text does not start with the space keyword or (with no budget read yet) the
+/// opening budget bracket - those two are tried before a term is
+pub open spec fn top_hyp(st: &ParseState<'_, &str>, l: Lay) -> bool {
+    &&& e_hyp(st, l)
+    &&& st.head + lay_text(st.format, l).len() == st.env@.len()
+    &&& mid_empty(st.mid_result)
+    &&& !st.at_head(st.format.space.parse@)
+    &&& !st.at_head(st.format.task.budget_brackets.0@)
+}
+/// the term slot holds a term with layout l, nothing else is filled, the input is used up
+pub open spec fn top_mid(st: &ParseState<'_, &str>, st0: &ParseState<'_, &str>, l: Lay) -> bool {
+    &&& st.mid_result.term matches Some(t) && lay_of(l, t)
+    &&& st.mid_result.budget is None && st.mid_result.punctuation is None && st.mid_result.stamp is None && st.mid_result.truth is None
+    &&& st.head == st0.env@.len()
+}
